@@ -1,8 +1,273 @@
-(* drv_padding.ml -- model-side drivers of work package "padding" (see docs/AGENT_GUIDE.md) *)
+(* drv_padding.ml -- model-side drivers of work package "padding" (C04, C05, C19).
+   Same line protocol and the same canonical output as harness/src/drv_padding.rs.
+   md5 (a function argument of the model) is instantiated with OCaml's Digest (MD5). *)
 open Model
 open Util
 
+let string_of_bytes (l : n list) : string =
+  let b = Buffer.create 64 in
+  List.iter (fun x -> Buffer.add_char b (Char.chr (int_of_n x))) l;
+  Buffer.contents b
+let bytes_of_string (s : string) : n list =
+  List.init (String.length s) (fun i -> small.(Char.code s.[i]))
+let md5_str (raw : n list) : string = Digest.to_hex (Digest.string (string_of_bytes raw))
+let md5 (raw : n list) : n list = bytes_of_string (md5_str raw)
+
+(* decimal string -> Z, any size *)
+let z_of_string (s : string) : z =
+  let neg = String.length s > 0 && s.[0] = '-' in
+  let body = if neg then String.sub s 1 (String.length s - 1) else s in
+  let ten = z_of_int 10 in
+  let v = ref Z0 in
+  String.iter (fun c -> v := Z.add (Z.mul !v ten) (z_of_int (Char.code c - 48))) body;
+  if neg then Z.opp !v else !v
+let n_of_string (s : string) : n = Z.to_N (z_of_string s)
+let rec string_of_pos (p : positive) : string =
+  (* decimal rendering through OCaml ints is enough: every printed value is < 2^62 *)
+  string_of_int (int_of_pos p)
+let string_of_z (x : z) : string = string_of_int (int_of_z x)
+
+let pattern len a b : n list = List.init len (fun i -> small.((a + b * i) land 255))
+
+let writes_tokens (ws : n list list) : string =
+  String.concat "" (List.map (fun w -> "W " ^ hex_of_bytes w ^ " ") ws)
+
+let parse_draws (tok : string) : z list list =
+  (* draws=<d,d;d;...> one `;`-separated group per transport packet *)
+  let body = String.sub tok 6 (String.length tok - 6) in
+  List.map (fun g -> if g = "" then [] else List.map z_of_string (String.split_on_char ',' g))
+    (String.split_on_char ';' body)
+
+let find_draws args =
+  match List.filter (fun a -> String.length a >= 6 && String.sub a 0 6 = "draws=") args with
+  | t :: _ -> parse_draws t
+  | [] -> []
+
+let drv_pfnew args =
+  match args with
+  | raw :: _ ->
+    let raw = bytes_of_hex raw in
+    (match factory_new raw with
+     | Some sc -> Printf.sprintf "OK %s %s" (string_of_int (int_of_n sc.sc_stop)) (md5_str raw)
+     | None -> "ERR")
+  | _ -> "BADCASE"
+
+let entry_str = function
+  | ECheck -> "c"
+  | ERange (lo, hi) -> string_of_z lo ^ "-" ^ string_of_z hi
+
+let drv_sizes args =
+  match args with
+  | raw :: pkt :: _ ->
+    (match factory_new (bytes_of_hex raw) with
+     | Some sc -> "E" ^ String.concat "" (List.map (fun e -> " " ^ entry_str e) (line_entries sc (n_of_string pkt)))
+     | None -> "ERR")
+  | _ -> "BADCASE"
+
+let auth_hash : n list = List.init 32 (fun i -> small.(0xa0 + i))
+
+let drv_auth args =
+  match args with
+  | raw :: _ ->
+    (match factory_new (bytes_of_hex raw) with
+     | Some sc ->
+       let d = match find_draws args with g :: _ -> g | [] -> [] in
+       writes_tokens (auth_writes auth_hash (sizes (line_entries sc N0) d)) ^ "| "
+     | None -> "ERR")
+  | _ -> "BADCASE"
+
+let settings_bytes (sc : scheme) : n list =
+  let kv = client_settings md5 sc in
+  let lines = List.map (fun (k, v) -> string_of_bytes k ^ "=" ^ string_of_bytes v) kv in
+  bytes_of_string (String.concat "\n" lines)
+
+let mkframe c sid data = { fcmd = cmd_of_byte (n_of_int c); fsid = n_of_string sid; fdata = data }
+
+let shaped_tokens = function
+  | Crash -> "PANIC "
+  | Writes ws -> writes_tokens ws ^ "| "
+
+let drv_shape args =
+  match args with
+  | role :: raw :: ops ->
+    (match factory_new (bytes_of_hex raw) with
+     | None -> "ERR"
+     | Some sc ->
+       let draws = ref (find_draws args) in
+       let next_draws () = match !draws with g :: r -> draws := r; g | [] -> [] in
+       let st = ref (sess_new (role = "c") sc) in
+       let out = Buffer.create 1024 in
+       let crashed = ref false in
+       let write_frame (f : frame) : bool =
+         match encode f with
+         | None -> false
+         | Some e ->
+           let d = if !st.cs_buffering then [] else next_draws () in
+           let (s', r) = sess_write !st d e in
+           st := s';
+           (match r with
+            | None -> ()
+            | Some Crash -> crashed := true
+            | Some sh -> Buffer.add_string out (shaped_tokens sh));
+           true in
+       List.iter (fun op ->
+           if !crashed || (String.length op >= 6 && String.sub op 0 6 = "draws=") then ()
+           else begin
+             let ok =
+               if op = "S" then begin
+                 st := sess_set_buffering !st true;
+                 write_frame { fcmd = Settings; fsid = N0; fdata = settings_bytes !st.cs_scheme }
+               end else if op = "U" then (st := sess_set_buffering !st false; true)
+               else if String.length op > 2 && String.sub op 0 2 = "F:" then begin
+                 match String.split_on_char '.' (String.sub op 2 (String.length op - 2)) with
+                 | [c; sid; len; a; b] ->
+                   write_frame (mkframe (int_of_string c) sid (pattern (int_of_string len) (int_of_string a) (int_of_string b)))
+                 | _ -> failwith "bad F"
+               end else if String.length op > 2 && String.sub op 0 2 = "D:" then begin
+                 match String.split_on_char '.' (String.sub op 2 (String.length op - 2)) with
+                 | [sid; len; a; b] ->
+                   let data = ref (pattern (int_of_string len) (int_of_string a) (int_of_string b)) in
+                   let ok = ref true in
+                   let rec take k l acc = if k = 0 then (List.rev acc, l) else match l with x :: t -> take (k - 1) t (x :: acc) | [] -> (List.rev acc, []) in
+                   while !ok && List.length !data > 65535 do
+                     let (h, t) = take 65535 !data [] in
+                     data := t;
+                     ok := write_frame (mkframe 2 sid h)
+                   done;
+                   if !ok then write_frame (mkframe 2 sid !data) else false
+                 | _ -> failwith "bad D"
+               end else failwith ("bad op " ^ op) in
+             if not !crashed then begin
+               if not ok then Buffer.add_string out "E ";
+               Buffer.add_string out "; "
+             end
+           end) ops;
+       if !crashed then "PANIC" else Buffer.contents out)
+  | _ -> "BADCASE"
+
+(* ------------------------------------------------------------------ C19 *)
+let lens (ws : n list list) : string =
+  match ws with
+  | [] -> "-"
+  | _ -> String.concat "," (List.map (fun w -> string_of_int (List.length w)) ws)
+
+let settings_canon (data : n list) : string =
+  let ls = String.split_on_char '\n' (string_of_bytes data) in
+  String.concat "," (List.sort compare ls)
+
+let frames_summary (fs : frame list) : string =
+  match fs with
+  | [] -> "-"
+  | _ ->
+    String.concat "/" (List.map (fun f ->
+        let c = int_of_n (byte_of_cmd f.fcmd) in
+        match f.fcmd with
+        | UpdatePaddingScheme -> "upd:" ^ md5_str f.fdata
+        | Settings | ServerSettings -> Printf.sprintf "%d:%s" c (settings_canon f.fdata)
+        | Waste -> Printf.sprintf "0:%d" (List.length f.fdata)
+        | _ -> Printf.sprintf "%d:%d:%d" c (int_of_n f.fsid) (List.length f.fdata)) fs)
+
+type c19sess = { mutable cs : csess; srv : scheme option; mutable settings_frame : n list }
+
+let drv_c19 args =
+  let out = Buffer.create 1024 in
+  let p = ref proc_init in
+  let client : scheme option ref = ref None in
+  let sessions : c19sess list ref = ref [] in
+  let nth i = List.nth !sessions i in
+  let result = ref None in
+  let enc f = match encode f with Some e -> e | None -> failwith "encode" in
+  let burst (s : c19sess) (f : frame) : string =
+    let (s', r) = sess_write s.cs [] (enc f) in
+    s.cs <- s';
+    match r with
+    | Some (Writes ws) ->
+      let (fs, rest) = decode_all (List.concat ws) in
+      Printf.sprintf "ok %s %s %d" (lens ws) (frames_summary fs) (List.length rest)
+    | Some Crash -> "PANIC"
+    | None -> "ok - - 0" in
+  List.iter (fun op ->
+      if !result <> None then ()
+      else if op = "D" then begin
+        let (_, p') = proc_default !p in p := p'; Buffer.add_string out "D "
+      end else if op = "Q" then begin
+        let (d, p') = proc_default !p in p := p';
+        Buffer.add_string out (Printf.sprintf "Q %s " (md5_str d.sc_raw))
+      end else begin
+        let tag = String.sub op 0 2 and body = String.sub op 2 (String.length op - 2) in
+        match tag with
+        | "C:" ->
+          if body = "default" then begin
+            let (d, p') = proc_default !p in p := p'; client := Some d; Buffer.add_string out "C "
+          end else begin
+            match factory_new (bytes_of_hex body) with
+            | Some sc -> client := Some sc; Buffer.add_string out "C "
+            | None -> result := Some "CLIENT-SCHEME-ERR"
+          end
+        | "N:" ->
+          let srv = if body = "-" then Some None
+            else (match factory_new (bytes_of_hex body) with Some s -> Some (Some s) | None -> None) in
+          (match srv, !client with
+           | None, _ -> result := Some "SERVER-SCHEME-ERR"
+           | _, None -> failwith "C before N"
+           | Some srv, Some cl ->
+             let sc = session_padding !p cl in
+             let aw = auth_writes auth_hash (sizes (line_entries sc N0) []) in
+             let all = List.concat aw in
+             let plen = match List.nth_opt all 32, List.nth_opt all 33 with
+               | Some a, Some b -> int_of_n a * 256 + int_of_n b | _ -> 99999999 in
+             Buffer.add_string out (Printf.sprintf "N %d %d " (List.length all) plen);
+             (* start_client: Settings is buffered; the client (built with a heartbeat configuration)
+                then buffers one HeartRequest *)
+             let s = { cs = sess_set_buffering (sess_new true sc) true; srv; settings_frame = [] } in
+             let sf = { fcmd = Settings; fsid = N0; fdata = settings_bytes sc } in
+             s.settings_frame <- sf.fdata;
+             let (s1, _) = sess_write s.cs [] (enc sf) in
+             let (s2, _) = sess_write s1 [] (enc { fcmd = HeartRequest; fsid = N0; fdata = [] }) in
+             s.cs <- s2;
+             sessions := !sessions @ [s])
+        | "K:" ->
+          let s = nth (int_of_string body) in
+          s.cs <- sess_set_buffering s.cs false;
+          let b = burst s { fcmd = Syn; fsid = n_of_int 1; fdata = [] } in
+          let srv_txt =
+            match s.srv with
+            | None -> "-"
+            | Some srv ->
+              let pushed = server_on_settings md5 srv (parse_map s.settings_frame) in
+              (match pushed with
+               | Some raw ->
+                 let (p', cs') = on_update !p s.cs raw in
+                 p := p'; s.cs <- cs';
+                 "upd:" ^ md5_str raw ^ "/"
+               | None -> "") ^ "10:v=2/9:0:0" in
+          Buffer.add_string out (Printf.sprintf "K %s %s " b srv_txt)
+        | "P:" ->
+          (match String.split_on_char ':' body with
+           | [i; raw] ->
+             let s = nth (int_of_string i) in
+             let (p', cs') = on_update !p s.cs (bytes_of_hex raw) in
+             p := p'; s.cs <- cs';
+             Buffer.add_string out "P open "
+           | _ -> failwith "bad P")
+        | "W:" ->
+          (match String.split_on_char ':' body with
+           | [i; len] ->
+             let s = nth (int_of_string i) in
+             let b = burst s { fcmd = Push; fsid = n_of_int 1; fdata = pattern (int_of_string len) 1 1 } in
+             Buffer.add_string out (Printf.sprintf "W %s " b)
+           | _ -> failwith "bad W")
+        | _ -> failwith ("bad op " ^ op)
+      end) args;
+  match !result with
+  | Some r -> r
+  | None -> Buffer.contents out
+
 let dispatch (drv : string) (args : string list) : string option =
-  ignore args;
   match drv with
+  | "pfnew" -> Some (drv_pfnew args)
+  | "sizes" -> Some (drv_sizes args)
+  | "auth" -> Some (drv_auth args)
+  | "shape" -> Some (drv_shape args)
+  | "c19" -> Some (drv_c19 args)
   | _ -> None
